@@ -1,6 +1,7 @@
 import PyCraft.Props.C12
 import PyCraft.Props.C12Bytes
 import PyCraft.Props.C12Final
+import PyCraft.Props.C12Progress
 #print axioms PyCraft.C12.step_inv
 #print axioms PyCraft.C12.run_inv
 #print axioms PyCraft.C12.only_holder_mid_frame
@@ -32,3 +33,14 @@ import PyCraft.Props.C12Final
 #print axioms PyCraft.C12Final.graceful_disconnect_sends_all_queued_before
 #print axioms PyCraft.C12Final.graceful_disconnect_queue_exact
 #print axioms PyCraft.C12Final.immediate_disconnect_sends_nothing_after
+#print axioms PyCraft.C12Progress.lock_holder_never_blocked
+#print axioms PyCraft.C12Progress.blocked_only_in_acquire
+#print axioms PyCraft.C12Progress.no_deadlock
+#print axioms PyCraft.C12Progress.networking_thread_runs_until_interrupted
+#print axioms PyCraft.C12Progress.nt_progress
+#print axioms PyCraft.C12Progress.nt_drains
+#print axioms PyCraft.C12Progress.queued_packet_eventually_sent
+#print axioms PyCraft.C12Progress.without_disconnect_every_queued_packet_is_sent
+#print axioms PyCraft.C12Progress.fair_schedules_exist
+#print axioms PyCraft.C12Progress.forced_write_is_synchronous
+#print axioms PyCraft.C12Progress.graceful_disconnect_sends_all_issued_before
